@@ -8,7 +8,8 @@ NA = {}
 
 PROOF_NOTE = ("Trusted: Lean kernel (axioms propext, Quot.sound, Classical.choice only; audited every run), the statements and model definitions, "
               "the Go harness (reflect-based record/projection conversion), the Python orchestrator, external libraries (snappy, gzip, thrift runtime) as parameters. "
-              "The model-implementation link is exact differential execution on generated inputs (sampled), except translated parts.")
+              "The model-implementation link is exact differential execution on generated inputs (sampled), except translated parts. "
+              "Thorough tier: leanchecker replays the theorem module and every project module it imports.")
 
 add("C17", "proof",
     "Theorems over all BitVec 8 inputs (all value groups and all byte groups of widths 1-4) about definitions regenerated from internal/bitpack/bitpack.go and from cmd/bitpackgen's fresh output on every run: unpack∘pack = mask, pack∘unpack = id, packed bit k = bit (k mod w) of value (k div w); Nat-level corollaries used by the RLE proofs (pack = arithmetic LSB-first layout). The quantifier of the property is covered completely by the theorems; the translator is validated each run by exact comparison with bitpack.Pack/Unpack.",
